@@ -1,11 +1,12 @@
 (* API commands 720..729: the option dictionaries of labella/timeline.py (Render/Options.v).
      720 resolve:   user -> 1 resolved | 0 err        (err: 0 KeyError, 1 TypeError)
      721 tl_merge:  user -> 1 dict | 0 err
+   input := fresh user      fresh: identity of the TimeScale the constructor creates
    user  := 0 (None) | 1 dict
    dict  := list of (key, oval)        oval := 0 | 1 b | 2 num den | 3 text | 4 list of texts | 5 (callable)
-                                               | 6 dict0 | 7 linear      (dict0: a dict whose values are not dicts)
+                                               | 6 dict0 | 7 linear oid      (dict0: a dict whose values are not dicts)
    resolved := dir iw ih ml mr mt mb gap padL padR padT padB dotr ticks border cross 5 x colour
-               alg minPos? maxPos? density spacing stub lineSpacing? linear own_scale
+               alg minPos? maxPos? density spacing stub lineSpacing? linear own_scale scale_oid
    colour := 0 text | 1 list of texts | 2 *)
 From Coq Require Import ZArith NArith QArith List Bool.
 From Labella Require Import Extract.Codec Extract.ApiRender Render.Geometry Render.Scene
@@ -22,7 +23,7 @@ Definition d_oval0 : dec oval :=
   | 3 => s <- d_text ;; dret (VStr s)
   | 4 => l <- d_list d_text ;; dret (VStrs l)
   | 5 => dret VFun
-  | 7 => b <- d_bool ;; dret (VScale b)
+  | 7 => b <- d_bool ;; i <- d_n ;; dret (VScale b i)
   | _ => fun _ => None
   end.
 Definition d_oval : dec oval := fun l =>
@@ -36,7 +37,7 @@ Definition e_text (s : list N) : list Z := e_list e_n s.
 Definition e_oval0 (v : oval) : list Z :=
   match v with
   | VNone => [0] | VBool b => 1 :: e_bool b | VNum q => 2 :: e_q q | VStr s => 3 :: e_text s
-  | VStrs l => 4 :: e_list e_text l | VFun => [5] | VDict _ => [6; 0] | VScale b => 7 :: e_bool b
+  | VStrs l => 4 :: e_list e_text l | VFun => [5] | VDict _ => [6; 0] | VScale b i => 7 :: e_bool b ++ e_n i
   end.
 Definition e_oval (v : oval) : list Z :=
   match v with
@@ -58,16 +59,16 @@ Definition e_resolved (r : resolved) : list Z :=
   ++ e_colour (o_cdot o) ++ e_colour (o_cbg o) ++ e_colour (o_ctext o) ++ e_colour (o_clink o) ++ e_colour (o_cborder o)
   ++ e_algo (e_alg e) ++ e_opt e_q (e_minPos e) ++ e_opt e_q (e_maxPos e) ++ e_q (e_density e)
   ++ e_q (e_spacing e) ++ e_q (e_stub e) ++ e_opt e_q (e_lineSpacing e)
-  ++ e_bool (r_linear r) ++ e_bool (r_own_scale r).
+  ++ e_bool (r_linear r) ++ e_bool (r_own_scale r) ++ e_n (r_scale_id r).
 
 Definition e_oerr (e : oerr) : list Z := [0; match e with OKeyError => 0 | OTypeError => 1 end].
 
 Definition api_options (cmd : Z) (a : list Z) : list Z :=
-  match d_user a with
-  | Some (u, _) =>
+  match (f <- d_n ;; u <- d_user ;; dret (f, u)) a with
+  | Some ((fresh, u), _) =>
       match cmd with
-      | 720 => match resolve u with OOk r => 1 :: e_resolved r | ORaise e => e_oerr e end
-      | 721 => match tl_merge u with OOk d => 1 :: e_dict d | ORaise e => e_oerr e end
+      | 720 => match resolve fresh u with OOk r => 1 :: e_resolved r | ORaise e => e_oerr e end
+      | 721 => match tl_merge fresh u with OOk d => 1 :: e_dict d | ORaise e => e_oerr e end
       | _ => bad_input
       end
   | None => bad_input
